@@ -211,3 +211,47 @@ STREAM(kz_norm) {
     out.count("boundary_k");
   }
 }
+
+// ---------------------------------------------------------------------------------------------------
+// the double-precision kernels on genuine binary64 data (non-integers, signed zeros, wide exponent range):
+// bit-exact against the model; in-place variants must equal the out-of-place ones numerically (C09)
+STREAM(kz_f64) {
+  for (uint64_t nn = 1; nn <= (thorough ? 1024u : 64u); nn *= 2)
+    for (int rep = 0; rep < (thorough ? 12 : 6); rep++) {
+      std::vector<double> in(nn), res(nn), res0(nn);
+      for (uint64_t i = 0; i < nn; i++) {
+        switch (rng.below(6)) {
+          case 0: in[i] = (rng.next() & 1) ? 0.0 : -0.0; break;
+          case 1: in[i] = (double)rng.sbits(20); break;
+          case 2: in[i] = ldexp((double)rng.sbits(52), (int)rng.range(-200, 200)); break;
+          default: in[i] = (double)rng.sbits(40) / 3.0; break;
+        }
+        res0[i] = 7.25 + (double)i;
+      }
+      if (nn >= 2 && rep == 0) { in[1] = -in[0]; }  // exact cancellations in (X^p - 1)
+      int64_t p = special_ps(rng, nn, 2)[rng.below(24)];
+      for (int k = 0; k < NK; k++) {
+        if ((k == K_AUT || k == K_AUTI) && !(p & 1)) continue;
+        res = res0;
+        std::vector<double> ref(nn);
+        switch (k) {
+          case K_ROT: rnx_rotate_f64(nn, p, res.data(), in.data()); break;
+          case K_ROTI: res = in; rnx_rotate_inplace_f64(nn, p, res.data()); rnx_rotate_f64(nn, p, ref.data(), in.data()); break;
+          case K_MUL: rnx_mul_xp_minus_one(nn, p, res.data(), in.data()); break;
+          case K_MULI: res = in; rnx_mul_xp_minus_one_inplace(nn, p, res.data()); rnx_mul_xp_minus_one(nn, p, ref.data(), in.data()); break;
+          case K_AUT: rnx_automorphism_f64(nn, p, res.data(), in.data()); break;
+          case K_AUTI: res = in; rnx_automorphism_inplace_f64(nn, p, res.data()); rnx_automorphism_f64(nn, p, ref.data(), in.data()); break;
+        }
+        fprintf(out.ops, "kf %s %" PRIu64 " %" PRId64 " | ", KN[k], nn, p);
+        put_f64bits(out.ops, in.data(), nn);
+        if (k == K_AUT) { fprintf(out.ops, " | "); put_f64bits(out.ops, res0.data(), nn); }
+        put_f64bits(out.real, res.data(), nn);
+        std::string verdict = "ok";
+        if (k == K_ROTI || k == K_MULI || k == K_AUTI)
+          for (uint64_t i = 0; i < nn; i++)
+            if (!(res[i] == ref[i])) { verdict = std::string("FAIL rnx_") + KN[k] + " differs numerically from the out-of-place variant"; break; }
+        out.endcase(verdict);
+        out.count(std::string("f64_") + KN[k]);
+      }
+    }
+}
